@@ -2,13 +2,9 @@ SPECIFICATION Spec
 CONSTANTS
   Alphabet = {"lo", "up", "dg", "us", "st", "sp", "dd", "sl", "dq", "sq", "bt", "bs", "nl", "nu", "d2", "d3", "nd", "no", "ns", "iv"}
   MaxLen = 5
-  MinLen = 5
+  MinLen = 3
   Shapes = {"flat", "obj", "multi"}
   LimMode = "prod"
   Firsts = {"lo", "up", "dg", "us", "st", "sp", "dd", "sl", "dq", "sq", "bt", "bs", "nl", "nu", "d2", "d3", "nd", "no", "ns", "iv"}
   Sample = TRUE
-INVARIANT OwnContentFindsIt
-INVARIANT NoUnproducibleToken
-INVARIANT RenderLexRoundTrip
-INVARIANT LowerShortcutSound
-INVARIANT Emit
+INVARIANT CheckAndEmit
